@@ -191,7 +191,7 @@ PROPS["C14"] = {
         {"pkg": "sqlite", "dir": "sqlite", "entry": "VerifH_C14_sqlite", "extra": [("s3db_export", ".")], "no_native": True,
          "quick": {"workers": 16, "timeout": 1800}},
     ],
-    "bounds": "5 scenarios {read-only open+scan, writable open+scan, open+insert+commit+scan, range scan, vacuum+scan} x {one version, two unmerged versions} on a depth-2 table; fault position symbolic over every request of the scenario, kind (transport error | deadline) and persistence (single | persistent) symbolic",
+    "bounds": "7 scenarios {read-only open+scan, writable open+scan, open+insert+commit+scan, range scan, vacuum+scan, descending scan below a bound above every key, begin+insert+commit with rollback and re-run of the transaction when the commit fails} x {one version, two unmerged versions} on a depth-2 table; fault position symbolic over every request of the scenario, kind (transport error | deadline) and persistence (single | persistent) symbolic",
     "outside": "the AWS SDK's own retry loop and wall-clock behaviour; s3db_changes under faults (C12)",
     "assumptions": [TIME_RANGE, "a fault is an error returned by the object store for the request (transport error or expired deadline); the request has no effect"],
 }
@@ -240,6 +240,9 @@ PROPS["C15"] = {
         {"pkg": ".", "dir": "s3db", "entry": "VerifH_C02_history", "tag": "-ties",
          "quick": {"params": "stmts=2,writers=2,retry=1,nulls=0,ties=1", "workers": 16, "timeout": 1800},
          "thorough": {"params": "stmts=3,writers=2,retry=1,nulls=0,ties=1", "workers": 16, "timeout": 14000}},
+        {"pkg": ".", "dir": "s3db", "entry": "VerifH_C02_history", "tag": "-ties-upd-upd",
+         "quick": {"params": "stmts=3,writers=1,retry=1,nulls=0,ties=1,shape=1,extra=0", "workers": 16, "timeout": 1800},
+         "thorough": {"params": "stmts=3,writers=2,retry=1,nulls=0,ties=1,shape=1,extra=0", "workers": 16, "timeout": 7200}},
         {"pkg": ".", "dir": "s3db", "entry": "VerifH_C02_history", "tag": "-upd-upd-del",
          "quick": {"params": "stmts=4,writers=2,shape=1,nulls=0", "workers": 16, "timeout": 1200}},
         {"pkg": "sqlite", "dir": "sqlite", "entry": "VerifH_C15_conn", "extra": [("s3db_export", ".")], "no_native": True,
